@@ -306,12 +306,19 @@ def r20_4(ctx):
                     where=fn.where(), detail="; ".join(errs))
         else:
             out.ok(fn.qname, "mixed DisjointShape: per-component fill / hole, outline and scatter per curve", where=fn.where())
-        # a single connected component (not Disjoint)
-        calls = plot_run(ctx, c1, "ConnectedShape")
-        fills = [c[1] for c in calls if c[0] == "patch" and c[1][1][0] == "fillpath"]
-        ok = len(fills) == 1 and fills[0][1][1] == "disk" and fills[0][2] not in ("white", None)
-        (out.ok if ok else out.bad)(fn.qname, "a connected shape is one filled component" if ok else
-                                    f"connected shape drawn as {fills}", where=fn.where())
+        # a single connected component (not Disjoint): a ring, whose `subshapes` are the outer disk and the complement
+        # of the hole -- factors of an intersection, not components to be drawn one by one
+        ring = Comp("ring", 5.0, [Cur("jouter", 1), Cur("jhole", -1)])
+        ring.subshapes = (Comp("outer_disk", 9.0, [ring.jordans[0]]), Comp("plane_minus_hole", -4.0, [ring.jordans[1]]))
+        for comp, label in ((c1, "disk"), (ring, "ring")):
+            calls = plot_run(ctx, comp, "ConnectedShape")
+            fills = [c[1] for c in calls if c[0] == "patch" and c[1][1][0] == "fillpath"]
+            ok = len(fills) == 1 and fills[0][1][1] == label and fills[0][2] not in ("white", None) \
+                and not any(c[0] == "facecolor" for c in calls)
+            (out.ok if ok else out.bad)(fn.qname, f"a connected shape ({label}) is one filled component" if ok else
+                                        f"connected shape ({label}) drawn as {fills}"
+                                        + (" on a coloured background" if any(c[0] == "facecolor" for c in calls) else ""),
+                                        where=fn.where())
     except (Undecided, Raised) as ex:
         out.undecided(fn.qname, str(ex), where=fn.where())
     return out
